@@ -224,6 +224,17 @@ pub enum Op {
     Dir,
     /// recover a *copy* from the image after `k` OS-level operations plus `cut` bytes of the next
     Crash { k: usize, cut: usize, pol: Pol },
+    /// drop the log (the `BufWriter` flushes)
+    Close,
+    /// remember / restore the directory content (log must be closed)
+    Snapshot,
+    Restore,
+    /// in-place overwrite of WAL bytes
+    Poke { file: u64, off: u64, data: Vec<u8> },
+    SetLenFile { file: u64, len: u64 },
+    RmFile(u64),
+    CopyFile { src: u64, dst: u64 },
+    CopyBlock { f1: u64, i1: u64, f2: u64, i2: u64 },
 }
 
 impl Op {
@@ -258,6 +269,14 @@ impl Op {
             Op::State => "state".into(),
             Op::Dir => "dir".into(),
             Op::Crash { k, cut, pol } => format!("crash {} {} {}", k, cut, pol.tok()),
+            Op::Close => "close".into(),
+            Op::Snapshot => "snapshot".into(),
+            Op::Restore => "restore".into(),
+            Op::Poke { file, off, data } => format!("poke {} {} x:{}", file, off, hex(data)),
+            Op::SetLenFile { file, len } => format!("setlen {} {}", file, len),
+            Op::RmFile(f) => format!("rmfile {}", f),
+            Op::CopyFile { src, dst } => format!("copyfile {} {}", src, dst),
+            Op::CopyBlock { f1, i1, f2, i2 } => format!("copyblock {} {} {} {}", f1, i1, f2, i2),
         }
     }
 
@@ -283,6 +302,14 @@ impl Op {
             ["range", q, lo, hi, ..] => Some(Op::Range { q: name(q), lo: Bnd::parse(lo), hi: Bnd::parse(hi) }),
             ["state", ..] => Some(Op::State),
             ["dir", ..] => Some(Op::Dir),
+            ["close", ..] => Some(Op::Close),
+            ["snapshot", ..] => Some(Op::Snapshot),
+            ["restore", ..] => Some(Op::Restore),
+            ["poke", f, off, d, ..] => Some(Op::Poke { file: f.parse().ok()?, off: off.parse().ok()?, data: unhex(d.strip_prefix("x:")?) }),
+            ["setlen", f, n, ..] => Some(Op::SetLenFile { file: f.parse().ok()?, len: n.parse().ok()? }),
+            ["rmfile", f, ..] => Some(Op::RmFile(f.parse().ok()?)),
+            ["copyfile", a, b, ..] => Some(Op::CopyFile { src: a.parse().ok()?, dst: b.parse().ok()? }),
+            ["copyblock", a, b, c, d, ..] => Some(Op::CopyBlock { f1: a.parse().ok()?, i1: b.parse().ok()?, f2: c.parse().ok()?, i2: d.parse().ok()? }),
             ["crash", k, cut, p, ..] => Some(Op::Crash { k: k.parse().ok()?, cut: cut.parse().ok()?, pol: Pol::parse(p) }),
             ["append", q, p, rest @ ..] => Some(Op::Append {
                 q: name(q),
